@@ -24,6 +24,7 @@ import (
 	"encoding/binary"
 	"encoding/json"
 	"fmt"
+	"io"
 	"os"
 	"path/filepath"
 	"sort"
@@ -32,6 +33,7 @@ import (
 	"sync"
 	"testing"
 
+	"github.com/sirupsen/logrus"
 	"pgregory.net/rapid"
 )
 
@@ -88,6 +90,10 @@ type Prop[C any] struct {
 	Rule  string // how cases are generated and what makes one non-trivial
 	Gen   func(t *rapid.T) C
 	Check func(c C, o *Obs) *Failure
+	// Journal writes every case to a journal file before executing it, so that
+	// a case that kills the process (OOM, fatal error, raft Panicf in a foreign
+	// goroutine) still leaves a replay tape behind.
+	Journal bool
 	// Replicas > 1 re-executes a case that passed, for subjects whose behaviour
 	// depends on Go map iteration order (DESIGN §2.8).
 	Replicas int
@@ -153,6 +159,9 @@ func Flush() {
 
 // Main is the TestMain body shared by all props packages.
 func Main(m *testing.M) {
+	if os.Getenv("VERIF_LOG") == "" {
+		logrus.SetOutput(io.Discard)
+	}
 	code := m.Run()
 	Flush()
 	os.Exit(code)
@@ -212,6 +221,14 @@ func writeReplay(id, name string, raw []byte, f *Failure) string {
 	return p
 }
 
+func writeJournal(id, name string, raw []byte) {
+	p := strings.TrimSuffix(replayPath(id, name), ".json") + ".journal.json"
+	_ = os.MkdirAll(filepath.Dir(p), 0o755)
+	rf := replayFile{Property: id, Check: name, Key: "process-death", Error: "case that was executing when the worker process died", Seed: os.Getenv("VERIF_RAPID_SEED"), Case: raw}
+	b, _ := json.Marshal(rf)
+	_ = os.WriteFile(p, b, 0o644)
+}
+
 // execute runs Check once (plus replicas), converting panics of the code under
 // test into failures so they shrink like any other violation.
 func execute[C any](p Prop[C], c C, o *Obs) (f *Failure) {
@@ -262,6 +279,9 @@ func Run[C any](t *testing.T, p Prop[C]) {
 			rt.Fatalf("case not serialisable: %v", err)
 		}
 		o := &Obs{}
+		if p.Journal {
+			writeJournal(p.ID, p.Name, raw)
+		}
 		f := execute(p, c, o)
 		global.mu.Lock()
 		st.Evaluations++
